@@ -238,8 +238,23 @@ def _post_get_dist(mon, call):
     name = "get_measurement_outcome_distribution"
     circuit = _arg(call, 1, "circuit")
     n_samples = _arg(call, 2, "n_samples")
-    if n_samples is not None or call.exc is not None:
+    if call.exc is not None:
         mon.out_of_domain(name)
+        return
+    if n_samples is not None:
+        # the sampled variant of the same entry point: an empirical distribution over measured tuples - every outcome
+        # it lists with positive weight is a possible outcome of the circuit, of register length
+        ref = _circuit_ref(circuit) if isinstance(n_samples, (int, np.integer)) and n_samples >= 1 else None
+        if ref is None:
+            mon.out_of_domain(name)
+            return
+        n = circuit.n_qubits
+        keys = [k for k, v in call.result.distribution_dict.items() if float(v) > 0]
+        bad = _judge_samples(keys, _probs(ref), n, f"get_measurement_outcome_distribution(.., {n_samples})")
+        if bad:
+            mon.violation(bad[0] + ":sampled-distribution", f"{circuit!r}: {bad[1]}")
+        else:
+            mon.ok(name + "(sampled)")
         return
     ref = _circuit_ref(circuit)
     if ref is None:
@@ -718,7 +733,7 @@ def build_operator(terms):
 def _gate(C, name, param):
     """library gate of a spec entry; 'c:NAME' / 'cc:NAME' = NAME with 1 / 2 control qubits listed first"""
     if ":" in name:
-        ctl, base = name.split(":")
+        ctl, base = name.split(":", 1)
         return _gate(C, base, param).controlled(len(ctl))
     g = getattr(C, name)
     return g if param is None else g(param)
@@ -733,7 +748,7 @@ def build_circuit(spec, n):
 def ref_matrix(name, param):
     """textbook matrix of a spec entry (nothing of the library is consulted)"""
     if ":" in name:
-        ctl, base = name.split(":")
+        ctl, base = name.split(":", 1)
         return L.controlled(ref_matrix(base, param), len(ctl))
     if name in ("XX", "YY", "ZZ"):  # exp(-i theta/2 P(x)P) = cos(theta/2) 1 - i sin(theta/2) P(x)P
         pauli = G.fixed(name[0])
@@ -890,6 +905,12 @@ def _views(ctx, spec, n, stats=False, classical=None, operators_general=False, *
             ctx.check("measured-expectation:" + regime,
                       np.allclose(np.asarray(ev.values, dtype=complex), exp_vals, atol=1e-12),
                       lambda: f"[{regime}] measured {list(ev.values)} expected {exp_vals}")
+        # the sampled distribution asked of the simulator directly (judged by the monitor; exact for a basis state)
+        sd = sim.get_measurement_outcome_distribution(circuit, k)
+        if classical is not None:
+            got_sd = {tuple(kk): float(v) for kk, v in sd.distribution_dict.items() if float(v) > 0}
+            ctx.check("deterministic-samples", got_sd.keys() == {classical} and abs(got_sd[classical] - 1) < 1e-12,
+                      lambda: f"[{regime}-samples regime, sampled distribution] expected {{{classical}: 1.0}}, got {got_sd}")
         direct = sample_from_wavefunction(wf, k, rng.randrange(2**31))
         bad_d = _judge_samples(direct, p, n, f"sample_from_wavefunction(.., {k}) [{regime}]")
         ctx.check("support:" + regime, bad_d is None, lambda: bad_d[1])
@@ -919,6 +940,13 @@ def _views(ctx, spec, n, stats=False, classical=None, operators_general=False, *
 
         pools["few"] = (shots_few, Measurements(list(shots_few)))
         marg = [sum(p[i] for i in range(dim) if G.bits_of(i, n)[q]) for q in range(n)]
+        # the sampled distribution of N shots: its per-qubit marginals are the exact ones within sampling error
+        sdist = SymbolicSimulator(seed=rng.randrange(2**31)).get_measurement_outcome_distribution(circuit, N)
+        for q in range(n):
+            f = sum(float(v) for kk, v in sdist.distribution_dict.items() if tuple(kk)[q] == 1)
+            ctx.check("marginals:sampled-distribution", within(f, marg[q], N),
+                      lambda: f"[sampled distribution of {N} shots] qubit {q}: weight of 1 = {f:.4f}, exact {marg[q]:.4f} "
+                              f"(exact marginals {[round(x, 3) for x in marg]})")
         for regime, (shots, meas) in pools.items():
             Ns = len(shots)
             for q in range(n):
@@ -938,6 +966,7 @@ def _views(ctx, spec, n, stats=False, classical=None, operators_general=False, *
 # ----------------------------------------------------------------------------- symbolic circuits
 TWO_QUBIT = ["CNOT", "c:RY", "c:RX", "c:PHASE", "c:RZ", "XX", "YY", "ZZ", "CPHASE", "SWAP", "CZ"]
 THREE_QUBIT = ["cc:X", "cc:RY", "c:SWAP", "c:XX", "cc:PHASE", "c:CNOT"]
+FOUR_QUBIT = ["cc:SWAP", "cc:CNOT", "ccc:X", "cc:CZ", "ccc:Z", "c:c:SWAP"]
 PARAMETRIC = {"RX", "RY", "RZ", "PHASE", "CPHASE", "XX", "YY", "ZZ"}
 
 
@@ -949,6 +978,14 @@ def spread_qubits(rng, k, n):
     """k distinct qubits in a random ORDER; biased towards far apart / descending tuples (the permutation that
     brings them next to each other is then neither trivial nor its own inverse)"""
     qs = rng.sample(range(n), k)
+    if k >= 4 and rng.random() < 0.4:
+        # a block of neighbouring qubits listed with both ends in place and the interior in another order
+        # ("first is the smallest, last is the largest, no gaps" does not make a tuple ascending)
+        lo = rng.randrange(n - k + 1)
+        mid = list(range(lo + 1, lo + k - 1))
+        while len(mid) > 1 and mid == sorted(mid):
+            rng.shuffle(mid)
+        return tuple([lo] + mid + [lo + k - 1])
     if n > k and rng.random() < 0.5:
         qs = rng.sample(range(n), k)
         lo, hi = 0, n - 1
@@ -977,7 +1014,10 @@ def multi_qubit_spec(rng, n, k_gates=None, dense=True):
         elif rng.random() < 0.6:
             spec.append(("X", None, (q,)))
     for _ in range(k_gates if k_gates is not None else rng.randint(1, 3)):
-        if n >= 3 and rng.random() < 0.35:
+        if n >= 4 and rng.random() < 0.22:
+            # gates on four qubits: tuples whose INTERIOR is permuted while both ends stay in place exist only here
+            name, k = rng.choice(FOUR_QUBIT), 4
+        elif n >= 3 and rng.random() < 0.35:
             name, k = rng.choice(THREE_QUBIT), 3
         elif n >= 2:
             name, k = rng.choice(TWO_QUBIT), 2
